@@ -66,6 +66,20 @@ def cells(tier):
             for sb in (S3 if tier == "thorough" else list(dict.fromkeys([S3[0], _h(R.sysname(sv) + ax, S3)]))):
                 add("spelling_axis", sv, sb, ax)
         add("dispatch", sv, None)
+    # float64 accuracy of every boost spelling for every stored system of the booster (conditioning-aware budget, see
+    # C02._check_accuracy): a re-derivation of gamma by cancellation in one booster signature is invisible to the laws above
+    for opname, boosters in (("boost_p4", S4), ("boostCM_of_p4", S4), ("boost_beta3", S3), ("boostCM_of_beta3", S3)):
+        for i, sv in enumerate(S4):
+            for j, sb in enumerate(boosters):
+                if tier == "quick" and not (i == 0 or (i + j) % 4 == 0):
+                    continue
+                out.append({"id": f"accuracy|{opname}|{R.sysname(sv)}|{R.sysname(sb)}", "law": "accuracy", "op": opname, "sv": R.sysname(sv),
+                            "sb": R.sysname(sb), "extra": "", "mode": "acc", "da": 4, "db": len(sb) + 1, "sa": R.sysname(sv), "order": None})
+    for ax in AXES:
+        for kind in ("beta", "gamma"):
+            for sv in S4:
+                out.append({"id": f"accuracy|boost{ax}_{kind}|{R.sysname(sv)}|", "law": "accuracy", "op": f"boost{ax}_{kind}", "sv": R.sysname(sv),
+                            "sb": None, "extra": ax, "mode": "acc", "da": 4, "db": None, "sa": R.sysname(sv), "order": None})
     return out
 
 
@@ -76,6 +90,10 @@ def examples(cell, tier):
 
 
 def strategy(cell, tier):
+    if cell["law"] == "accuracy":
+        from vcheck.props import c02
+
+        return c02.strategy(cell, tier)
     f64 = cell["mode"] == "f64"
     strata = ("moderate",) * 3 if f64 else gen.REGULAR
     allb = ("moderate",) if f64 else gen.REGULAR
@@ -279,6 +297,14 @@ def check_sub(cell, sub, ctx):
 
 
 def check_case(cell, bundle, ctx):
+    if cell["law"] == "accuracy":
+        from vcheck.props import c02
+
+        for sub in bundle:
+            ctx.evaluation()
+            c02._check_accuracy(cell, sub, ctx)
+        ctx.evaluations -= 1
+        return
     laws.run_bundle(check_sub, cell, bundle, ctx)
 
 
